@@ -699,7 +699,8 @@ class EngineBase:
         return ["listing order (seeded permutation)", "uuid4 / tempfile names (seeded)",
                 "file and directory mtimes (simulated clock)", "fork as in-memory snapshot",
                 "threading.RLock in signac / synced_collections -> SimRLock",
-                "multiprocessing.pool.ThreadPool in signac.project / signac.sync -> SimPool"]
+                "multiprocessing.pool.ThreadPool in signac.project / signac.sync -> SimPool",
+                "shutil's sendfile(2) fast copy switched off (copies go through read/write, which the seam sees)"]
 
     def assumptions(self):
         return ["process-death crash model: completed kernel calls are durable; power loss not modelled",
